@@ -218,18 +218,46 @@ func c20(x *Ctx) {
 		}})
 		return len(r.Hits) > 0
 	}
-	asMeta := &eng.Assume{Bool: func(v ssa.Value) eng.Tri {
-		if isMetaLookup(v) {
-			return eng.True
-		}
-		return eng.Unknown
-	}}
-	asMemo := &eng.Assume{Bool: func(v ssa.Value) eng.Tri {
-		if isMemoLookup(v) {
-			return eng.True
-		}
-		return eng.Unknown
-	}}
+	// a predicate helper of the package (`p.serializedElsewhere(key)`) is evaluated under the same assumption:
+	// when all its returns are true then, the call is true
+	liftHelpers := func(base func(ssa.Value) bool) *eng.Assume {
+		var as *eng.Assume
+		depth := 0
+		as = &eng.Assume{Bool: func(v ssa.Value) eng.Tri {
+			if base(v) {
+				return eng.True
+			}
+			cl, ok := v.(*ssa.Call)
+			if !ok || depth > 0 {
+				return eng.Unknown
+			}
+			h := cl.Call.StaticCallee()
+			if h == nil || h.Pkg != mm.Pkg || len(h.Blocks) == 0 || h.Signature.Results().Len() != 1 || h.Signature.Results().At(0).Type().String() != "bool" {
+				return eng.Unknown
+			}
+			depth++
+			defer func() { depth-- }()
+			r := eng.Explore(eng.Query{Fn: h, Assume: as, TrackPhi: func(*ssa.Phi) bool { return true }})
+			n := 0
+			for _, e := range r.Exits {
+				ret, isRet := e.Instr.(*ssa.Return)
+				if !isRet {
+					continue
+				}
+				n++
+				if e.Facts.Bool(e.Facts.Resolve(ret.Results[0])) != eng.True {
+					return eng.Unknown
+				}
+			}
+			if n > 0 {
+				return eng.True
+			}
+			return eng.Unknown
+		}}
+		return as
+	}
+	asMeta := liftHelpers(isMetaLookup)
+	asMemo := liftHelpers(isMemoLookup)
 	for _, in := range intfCalls {
 		c.Decide(!reach(asMeta, in), r3, "MarshalMsg/memoized-pass-skips-metadata", x.Pos(in), "metadata keys are not emitted again from the memoized map", "a metadata key present in the memoized map is emitted twice (once from its dedicated field, once from the map)")
 	}
